@@ -1,5 +1,6 @@
 use crate::wal::block::Block;
 use crate::wal::config::debug_print;
+use crate::wal::runtime::allocator::BlockStateTracker;
 use std::collections::HashMap;
 use std::io;
 use std::sync::{Arc, RwLock};
@@ -30,6 +31,14 @@ impl Reader {
     }
 
     pub(super) fn append_block_to_chain(&self, col: &str, block: Block) -> io::Result<()> {
+        // A block sealed before anything was written to it (the first block of a topic whose
+        // first entry needed a larger block) holds no entries, and startup never rebuilds it
+        // from disk. Keeping it in the chain would shift every persisted (chain index, offset)
+        // read position by one after a restart, so it is retired right away instead.
+        if block.used == 0 {
+            BlockStateTracker::set_checkpointed_true(block.id as usize);
+            return Ok(());
+        }
         // fast path: try read-lock map and use per-column lock
         if let Some(info_arc) = {
             let map = self.data.read().map_err(|_| {
